@@ -21,11 +21,15 @@
 package engine
 
 import (
+	"fmt"
 	"go/ast"
 	"go/token"
 	"reflect"
+	"sort"
+	"strings"
 
 	"github.com/uber-go/gopatch/internal/data"
+	"github.com/uber-go/gopatch/internal/goast"
 )
 
 // SliceDotsMatcher implements support for "..." in portions of the AST where
@@ -38,6 +42,11 @@ type SliceDotsMatcher struct {
 
 	// Positions at which dots were found.
 	Dots []token.Pos // inv: len(dots) = len(sections) - 1
+
+	// Names of the metavariables that occur in Sections[i:], for every i.
+	// Whether the sections after a "..." can be matched from a given
+	// position depends on nothing but what these stand for.
+	metavarsFrom [][]string // inv: len(metavarsFrom) = len(sections)
 }
 
 func (c *matcherCompiler) compileSliceDots(items reflect.Value, isDots func(ast.Node) bool) Matcher {
@@ -69,7 +78,52 @@ func (c *matcherCompiler) compileSliceDots(items reflect.Value, isDots func(ast.
 		return SliceMatcher{Items: sections[0]}
 	}
 
-	return SliceDotsMatcher{Sections: sections, Dots: dots}
+	return SliceDotsMatcher{
+		Sections:     sections,
+		Dots:         dots,
+		metavarsFrom: c.metavarsFrom(items, isDots, len(sections)),
+	}
+}
+
+// metavarsFrom reports, for every section of a list with n sections, the
+// names of the metavariables that occur in that section or a later one.
+func (c *matcherCompiler) metavarsFrom(items reflect.Value, isDots func(ast.Node) bool, n int) [][]string {
+	perSection := make([]map[string]struct{}, n)
+	for i := range perSection {
+		perSection[i] = make(map[string]struct{})
+	}
+
+	section := 0
+	for i := 0; i < items.Len(); i++ {
+		node, ok := items.Index(i).Interface().(ast.Node)
+		if !ok || reflect.ValueOf(node).IsNil() {
+			continue
+		}
+		if isDots(node) {
+			section++
+			continue
+		}
+		forEachIdent(reflect.ValueOf(node), func(id *ast.Ident) {
+			if c.meta.LookupVar(id.Name) != 0 {
+				perSection[section][id.Name] = struct{}{}
+			}
+		})
+	}
+
+	from := make([][]string, n)
+	seen := make(map[string]struct{})
+	for i := n - 1; i >= 0; i-- {
+		for name := range perSection[i] {
+			seen[name] = struct{}{}
+		}
+		names := make([]string, 0, len(seen))
+		for name := range seen {
+			names = append(names, name)
+		}
+		sort.Strings(names)
+		from[i] = names
+	}
+	return from
 }
 
 // Match matches
@@ -85,7 +139,58 @@ func (m SliceDotsMatcher) Match(got reflect.Value, d data.Data, r Region) (data.
 		return d, false
 	}
 
-	return m.matchSections(0, gotItems, d, r, idx)
+	return m.matchSections(0, gotItems, d, r, idx, make(map[deadEnd]struct{}))
+}
+
+// forEachIdent calls f for every identifier in the pattern below v. (Patterns
+// contain nodes that ast.Inspect does not know.)
+func forEachIdent(v reflect.Value, f func(*ast.Ident)) {
+	switch v.Kind() {
+	case reflect.Ptr:
+		if v.IsNil() {
+			return
+		}
+		switch v.Type() {
+		case goast.ObjectPtrType, goast.ScopePtrType, goast.CommentGroupPtrType:
+			return // not code
+		case goast.IdentPtrType:
+			f(v.Interface().(*ast.Ident))
+			return
+		}
+		forEachIdent(v.Elem(), f)
+	case reflect.Interface:
+		if !v.IsNil() {
+			forEachIdent(v.Elem(), f)
+		}
+	case reflect.Slice:
+		for i := 0; i < v.Len(); i++ {
+			forEachIdent(v.Index(i), f)
+		}
+	case reflect.Struct:
+		for i := 0; i < v.NumField(); i++ {
+			forEachIdent(v.Field(i), f)
+		}
+	}
+}
+
+// deadEnd records that the sections after the i-th "..." cannot be matched
+// against got[idx:] while the metavariables that occur in them stand for
+// what bound lists.
+type deadEnd struct {
+	i, idx int
+	bound  string
+}
+
+// deadEnd builds the key for the given position under the bindings in d.
+func (m SliceDotsMatcher) deadEnd(i, idx int, d data.Data) deadEnd {
+	var bound strings.Builder
+	for _, name := range m.metavarsFrom[i+1] {
+		var md metavarData
+		if data.Lookup(d, metavarKey(name), &md) {
+			fmt.Fprintf(&bound, "%s=%p;", name, md.source)
+		}
+	}
+	return deadEnd{i: i, idx: idx, bound: bound.String()}
 }
 
 // matchSections matches the sections that follow the i-th "..." against
@@ -98,10 +203,20 @@ func (m SliceDotsMatcher) Match(got reflect.Value, d data.Data, r Region) (data.
 //
 // Invariant: If ok is true, a list of skipped items will have been pushed to
 // Data for every "...".
-func (m SliceDotsMatcher) matchSections(i int, got []reflect.Value, d data.Data, r Region, idx int) (data.Data, bool) {
+//
+// The number of ways to place the sections grows with the length of the list
+// to the power of the number of "..."s. Positions from which the rest of the
+// list was found not to match are remembered in dead, so that each is
+// explored once.
+func (m SliceDotsMatcher) matchSections(i int, got []reflect.Value, d data.Data, r Region, idx int, dead map[deadEnd]struct{}) (data.Data, bool) {
 	if i == len(m.Dots) {
 		// No sections left. The whole list must have been consumed.
 		return d, idx == len(got)
+	}
+
+	key := m.deadEnd(i, idx, d)
+	if _, ok := dead[key]; ok {
+		return d, false
 	}
 
 	want := m.Sections[i+1]
@@ -119,11 +234,12 @@ func (m SliceDotsMatcher) matchSections(i int, got []reflect.Value, d data.Data,
 			continue
 		}
 
-		if resD, ok := m.matchSections(i+1, got, newD, r, newIdx); ok {
+		if resD, ok := m.matchSections(i+1, got, newD, r, newIdx, dead); ok {
 			return resD, true
 		}
 	}
 
+	dead[key] = struct{}{}
 	return d, false
 }
 
